@@ -339,7 +339,7 @@ func BuildRequest(spec ReqSpec) (*http.Request, error) {
 	}
 	for k, vs := range spec.Header {
 		for _, v := range vs {
-			req.Header[k] = append(req.Header[k], v)
+			req.Header.Add(k, v) // canonical field names, as net/http's own API produces
 		}
 	}
 	return req, nil
